@@ -75,3 +75,11 @@ Proof. intro H. unfold RefJun.vstr. cbn. rewrite H, to_strz_vstr, map_length. re
 Lemma call_group0 rx_of h l a b :
   sub_call rx_of (VFun (of_string "group")) (VList [VTuple [h; vstr l; VInt (Z.of_nat a); VInt (Z.of_nat b)]; VInt 0]) = Normal (vstr (substr l a b)).
 Proof. unfold RefJun.vstr at 1. cbn. now rewrite to_strz_vstr, !Nat2Z.id. Qed.
+
+(* what the translated sub-with-callback code uses of the dispatcher, for the pattern behind the handle h *)
+Definition sub_contract (pc : pyval -> pyval -> PyLib.res) (h : pyval) (rx : re) : Prop :=
+  (forall l, pc (VFun (of_string "finditer")) (VList [h; vstr l]) = Normal (VList (map (enc_match l h) (matches l (S (length l)) rx 0)))) /\
+  (forall l a b, pc (VFun (of_string "group")) (VList [VTuple [h; vstr l; VInt (Z.of_nat a); VInt (Z.of_nat b)]; VInt 0]) = Normal (vstr (substr l a b))).
+Lemma sub_call_contract rx_of h rx : rx_of h = Some rx -> sub_contract (sub_call rx_of) h rx.
+Proof. intro H. split; intros; [now apply call_finditer|apply call_group0]. Qed.
+
